@@ -36,6 +36,12 @@ pub enum HOp
     DeleteHistoryFile,
     DeleteTable,
     BuildCleanBuild(Option<String>),
+    /* the user copies a target aside (a new file) ... */
+    StashTarget(String),
+    /* ... and later moves the stashed copy back over the target, as `mv` does: the file keeps its older modification time */
+    UnstashOver(String),
+    /* only script line k of the commands reading this leaf fails */
+    PoisonFailStep(String, usize),
 }
 
 /* weights indexed like the match in choose_op */
@@ -74,7 +80,10 @@ pub const W_POISON_SKIP : usize = 18;
 pub const W_DELETE_LEAF : usize = 19;
 pub const W_SWAP_LEAVES : usize = 20;
 pub const W_RERENDER : usize = 21;
-pub const W_COUNT : usize = 22;
+pub const W_STASH : usize = 22;
+pub const W_UNSTASH : usize = 23;
+pub const W_POISON_STEP : usize = 24;
+pub const W_COUNT : usize = 25;
 
 impl HistCfg
 {
@@ -85,7 +94,7 @@ impl HistCfg
         w[W_BUILD_ALL] = 14; w[W_BUILD_GOAL] = 6; w[W_CLEAN_ALL] = 3; w[W_CLEAN_GOAL] = 2;
         w[W_TAMPER] = 4; w[W_DELETE_TARGET] = 3; w[W_DELETE_CACHE_ENTRY] = 2; w[W_DELETE_RULER] = 1;
         w[W_DELETE_CACHE] = 1; w[W_DELETE_HISTORY] = 1; w[W_DELETE_HISTORY_FILE] = 1; w[W_DELETE_TABLE] = 1;
-        w[W_BUILD_AGAIN] = 4; w[W_SWAP_LEAVES] = 2; w[W_RERENDER] = 1;
+        w[W_BUILD_AGAIN] = 4; w[W_SWAP_LEAVES] = 2; w[W_RERENDER] = 1; w[W_STASH] = 2; w[W_UNSTASH] = 3;
         HistCfg
         {
             max_ops : if thorough { 40 } else { 14 },
@@ -112,18 +121,20 @@ impl HistCfg
             "C04" | "C05" =>
             {
                 c.failures = true;
-                c.weights[W_POISON_FAIL] = 6; c.weights[W_POISON_SKIP] = 4; c.weights[W_DELETE_LEAF] = 4; c.weights[W_BUILD_AGAIN] = 6;
+                c.weights[W_POISON_FAIL] = 6; c.weights[W_POISON_SKIP] = 4; c.weights[W_DELETE_LEAF] = 4; c.weights[W_BUILD_AGAIN] = 6; c.weights[W_POISON_STEP] = 4;
                 c.random_sched_pct = 50;
             },
             "C07" =>
             {
                 c.failures = true;
                 c.weights[W_TAMPER] = 10; c.weights[W_DELETE_TARGET] = 5; c.weights[W_POISON_FAIL] = 4; c.weights[W_CLEAN_ALL] = 6; c.weights[W_CLEAN_GOAL] = 4;
+                c.weights[W_STASH] = 5; c.weights[W_UNSTASH] = 7;
             },
             "C08" =>
             {
                 c.failures = true;
                 c.weights[W_TAMPER] = 12; c.weights[W_POISON_FAIL] = 5; c.weights[W_POISON_SKIP] = 3; c.weights[W_EDIT_RULE] = 9; c.weights[W_CLEAN_ALL] = 5;
+                c.weights[W_STASH] = 5; c.weights[W_UNSTASH] = 7; c.weights[W_CLEAN_GOAL] = 5;
             },
             "C09" =>
             {
@@ -264,7 +275,7 @@ impl HistRun
         {
             let leaves = self.current_leaves();
             let targets = self.current_targets();
-            match rng.below(6)
+            match rng.below(7)
             {
                 0 if leaves.len() > 0 =>
                 {
@@ -294,6 +305,16 @@ impl HistRun
                         let g = self.random_goal(rng);
                         self.queue.extend(vec![HOp::Build(None), HOp::SwapLeaves(a.clone(), b.clone()), HOp::Build(None), HOp::Clean(g), HOp::SwapLeaves(a, b), HOp::Build(None)]);
                     }
+                },
+                5 if leaves.len() > 0 && targets.len() > 0 =>
+                {
+                    // a copy of a target is put aside, the target moves on, and the older copy is moved back over it (mv keeps
+                    // the older modification time), possibly after part of the graph was cleaned
+                    let t = targets[rng.below(targets.len())].clone();
+                    let l = leaves[rng.below(leaves.len())].clone();
+                    let g = self.random_goal(rng);
+                    self.queue.extend(vec![HOp::Build(None), HOp::StashTarget(t.clone()), HOp::EditLeaf(l.clone()), HOp::Build(None), HOp::Clean(g),
+                        HOp::UnstashOver(t), HOp::EditLeaf(l.clone()), HOp::Build(None), HOp::RevertLeaf(l), HOp::Build(None)]);
                 },
                 _ if leaves.len() > 0 && self.cfg.failures =>
                 {
@@ -348,6 +369,14 @@ impl HistRun
                     HOp::SwapLeaves(a, b)
                 },
                 W_RERENDER => HOp::ReRender,
+                W_STASH if targets.len() > 0 => HOp::StashTarget(targets[rng.below(targets.len())].clone()),
+                W_UNSTASH if targets.len() > 0 => HOp::UnstashOver(targets[rng.below(targets.len())].clone()),
+                W_POISON_STEP if leaves.len() > 0 =>
+                {
+                    let l = leaves[rng.below(leaves.len())].clone();
+                    if !self.world.rules.iter().any(|r| r.split && r.outs.len() >= 2 && r.sources.contains(&l)) { continue; }
+                    HOp::PoisonFailStep(l, rng.below(2))
+                },
                 _ => continue,
             };
             return op;
@@ -392,6 +421,31 @@ impl HistRun
                 let c = format!("!SKIP:{} v{}", out, w.counter).into_bytes();
                 w.write_leaf(l, c);
                 if let Some(v) = w.leaf_versions.get_mut(l) { v.pop(); }
+            },
+            HOp::PoisonFailStep(l, k) =>
+            {
+                w.counter += 1;
+                let c = format!("!FAILSTEP:{} v{}", k, w.counter).into_bytes();
+                w.write_leaf(l, c);
+                if let Some(v) = w.leaf_versions.get_mut(l) { v.pop(); }
+            },
+            HOp::StashTarget(t) =>
+            {
+                if let Some(bytes) = w.sys.read_file(t)
+                {
+                    w.sys.tick();
+                    w.sys.user_write(&format!("stash/{}", t.replace("/", "_")), &bytes, false);
+                }
+            },
+            HOp::UnstashOver(t) =>
+            {
+                let stash = format!("stash/{}", t.replace("/", "_"));
+                if w.sys.read_file(&stash).is_some()
+                {
+                    w.sys.tick();
+                    w.sys.user_move(&stash, t);
+                    w.fresh_build = None;
+                }
             },
             HOp::SwapLeaves(a, b) =>
             {
